@@ -26,7 +26,7 @@ func init() {
 			"random and targeted length fields, inserted/deleted bytes, truncation at every offset of small streams, concatenations) and the repository's stored fuzz corpora; each executed under sampled " +
 			"(thorough: crossed) configurations packet size {auto,188,192,204,other} x reader {seekable,bufio,plain} x reads {full,1-byte,random} x API {NextPacket,NextData,alternating} x options " +
 			"{none, random skipper, observing parser, failing parser}; monitored: panics, calls until ErrNoMorePackets ≤ len(input)+64, 16 further calls, truncated-final-packet equivalence; " +
-			"distinct = hash(input, configuration); non-trivial = the input delivered at least one packet or datum before ending",
+			"plus runs of 255..131 073 (thorough 262 145) packets a skipper rejects inside one call (stage long-skip); distinct = hash(input, configuration); non-trivial = the input delivered at least one packet or datum before ending",
 		Assumptions: []string{"termination is judged on a logical bound (number of calls), a wall clock watchdog only covers calls that never return (then the goroutine dump must show a library frame)",
 			"explicit packet sizes ≥ 188; bufio readers with buffers from 16 bytes up"},
 		Shards:       32,
@@ -40,6 +40,7 @@ func init() {
 			need(m, &out, "truncated_final_packet_checks", 500)
 			need(m, &out, "truncation_offsets_tried", 5000)
 			need(m, &out, "fuzz_corpus_inputs", 10)
+			need(m, &out, "long_skipped_runs", 100)
 			need(m, &out, "malformed_descriptor_length_cases", 10000)
 			needSet(m, &out, "malformed_descriptor_tags", 24)
 			needSet(m, &out, "config_cells", 100)
@@ -313,7 +314,59 @@ func mutate(r *rand.Rand, in []byte) ([]byte, string) {
 	return b, kind
 }
 
+// longSkipCase: a skipper that keeps one PID of a multiplex in which that PID stays silent for `run` packets: the Demuxer skips them
+// all inside one call, and must come back with the packet that follows (or the end of the stream), however long the run was.
+func longSkipCase(c *mon.Ctx, idx int64, run int, k c03cfg) {
+	s := newLongStream()
+	s.pes(0x200, 0xe0, 1, longData(0x200, 1, 400), false)
+	for q := 0; q < run; q++ {
+		s.packet([]uint16{0x100, 0x101}[q%2], q < 2, longData(0x100, q, 184))
+	}
+	s.pes(0x200, 0xe0, 2, longData(0x200, 2, 100), false)
+	in := s.b
+	if k.size > 188 {
+		in = refts.Reframe(in, k.size-188, func(p, j int) byte { return byte(p + j) })
+	}
+	cfg := DemuxCfg{PacketSize: k.size, Reader: k.reader, API: k.api, ExtraAfterEOF: 3, Skipper: func(p *astits.Packet) bool { return p.Header.PID != 0x200 }}
+	r := RunDemux(in, cfg)
+	c.Count("executions")
+	c.Count("long_skipped_runs")
+	c.Max("longest_skipped_run_packets", int64(run))
+	data := map[string]any{"skipped_run_packets": run, "config": cfg.String()}
+	switch {
+	case r.Panic != "":
+		c.Violate("C03/panic:"+r.PanicClass, "long-skip", idx, r.Panic, data)
+	case r.EOFAt < 0:
+		c.Violate("C03/no-termination:long-skip/"+k.reader, "long-skip", idx, fmt.Sprintf("%d calls without ErrNoMorePackets", r.Calls), data)
+	case r.PostEOFBad != "":
+		c.Violate("C03/result-after-end-of-stream:long-skip/"+k.reader, "long-skip", idx, r.PostEOFBad, data)
+	}
+	c.Case(mon.HashStr("c03longskip", fmt.Sprint(run), k.cell()), true)
+}
+
 func runC03(c *mon.Ctx) {
+	{
+		runs := []int{255, 256, 257, 1023, 1024, 1025, 4096, 65535, 65536, 65537, 131073}
+		if c.Thorough() {
+			runs = append(runs, 262145, 70000, 200000)
+		}
+		var idx int64
+		for ri, run := range runs {
+			for ci, rd := range []string{"seek", "bufio", "plain"} {
+				for si, sz := range []int{188, 0, 192} {
+					for ai, api := range []string{"packet", "data", "alt"} {
+						idx++
+						if run > 2000 && !c.Thorough() && (ri+ci+si+ai)%3 != 0 {
+							continue
+						}
+						if c.Mine("long-skip", idx) {
+							longSkipCase(c, idx, run, c03cfg{size: sz, reader: rd, api: api, opt: 1})
+						}
+					}
+				}
+			}
+		}
+	}
 	// fixed small inputs under the full configuration cross product
 	fixed := [][]byte{{}, {0x47}, {0x00}, bytes.Repeat([]byte{0x47}, 187), bytes.Repeat([]byte{0x47}, 188), bytes.Repeat([]byte{0x47}, 192), bytes.Repeat([]byte{0x47}, 193),
 		bytes.Repeat([]byte{0x47}, 400), bytes.Repeat([]byte{0x00}, 400), bytes.Repeat([]byte{0xff}, 1000), append([]byte{0x47}, bytes.Repeat([]byte{0}, 192)...),
